@@ -46,6 +46,7 @@ type clhtScenario struct {
 	InitSize int    `json:"initsize"` // NewWithSize hint
 	Rangers  int    `json:"rangers"`
 	Resizes  int    `json:"resizes"`  // forced grow / shrink cycles by an extra goroutine (gate-scheduled runs)
+	Clears   int    `json:"clears"`   // Clear() calls by an extra goroutine (logged as operation "clr")
 	Policy   string `json:"policy"`   // free | random | pct
 	Seed     int64  `json:"seed"`
 }
@@ -194,7 +195,17 @@ func runCLHTScenario(sc clhtScenario) clhtResult {
 			m.resize(m.table.Load(), mapShrinkHint)
 		}
 	}
+	clearer := func() {
+		for r := 0; r < sc.Clears; r++ {
+			log(linEv{C: 90, T: "call", Op: "clr", K: 0, RV: -1, Saw: -1})
+			m.Clear()
+			log(linEv{C: 90, T: "ret", Op: "clr", K: 0, RV: -1, Saw: -1})
+		}
+	}
 	var fns []func()
+	if sc.Clears > 0 {
+		fns = append(fns, clearer)
+	}
 	if sc.Resizes > 0 {
 		// two resizers: a late one must re-read the table after winning the flag
 		fns = append(fns, resizer, resizer)
